@@ -82,6 +82,13 @@ def odd_ok(brs):
     return all(k["t"] != "filt" and k.get("form", "el") != "pp" for k in flat_kinds(brs))
 
 
+def odd_res_ok(brs):
+    """Odd results make sense unless an element behind the branch element looks into the results
+    (pp: post-processing retags them; Sources with a tail)."""
+    return all(k.get("form", "el") not in ("pp", "fct") and not (k["t"] == "src" and k.get("form", "el") == "obj")
+               for k in flat_kinds(brs))
+
+
 def kind_of_tag(brs, b):
     if b >= 10:
         return brs[b // 10 - 1]["sub"][b % 10 - 1]
@@ -192,6 +199,22 @@ def replay_run(ctx, rec, idx=0):
                     ok = False
                     ctx.violation("Split.run:odd-values:%s" % key,
                                   dict(detail, flow=repr(objs), observed=repr(got)))
+            # results are arbitrary objects too: None, 0, "", (), [], False, StopIteration (class and instance)
+            # yielded by Sources, compute() and request() must come through like any other result
+            if exp and odd_res_ok(brs):
+                omode = ("none", "mix")[(idx + int(copy_buf)) % 2]
+                bld.hreset()
+                with sl.odd_results(omode):
+                    try:
+                        with sl.deadline(3):
+                            got = list(itertools.islice(s.run(iter(range(n))), sl.CAP))
+                    except Exception as exc:   # noqa
+                        got = "raised " + exc_name(exc)
+                    want = [sl.expected_result(r) for r in exp]
+                if isinstance(got, str) or len(got) != len(want) or not all(sl.same_result(a, b) for a, b in zip(got, want)):
+                    ok = False
+                    ctx.violation("Split.run:odd-results:%s" % key,
+                                  dict(detail, results=omode, expected_values=repr(want), observed=repr(got)))
         elif mode == "abort":
             # Abort of Split.tla: the consumer takes cut.n results and closes the generator ...
             try:
@@ -273,6 +296,22 @@ def ct_elements(kind, nb, ms, form):
     return els
 
 
+def ct_ops(obj, hist):
+    outs = []
+    for op in hist:
+        if op[0] == "f":
+            obj.fill(op[1])
+        elif op[0] == "c":
+            outs.append(list(obj.compute()))
+        elif op[0] == "r":
+            outs.append(list(obj.request()))
+        elif op[0] == "x":
+            obj.reset()
+        elif op[0] == "call":
+            outs.append(list(obj()))
+    return outs
+
+
 def replay_ct(ctx, rec):
     """Common-type methods of Split and Zip driven along a behaviour of SplitCT.tla."""
     import lena.core
@@ -331,6 +370,43 @@ def replay_ct(ctx, rec):
         if got != rec["outs"]:
             ctx.violation(key, {"scenario": rec, "copy_buf": copy_buf, "observed": got})
             return False
+        # the same operations with results that look like nothing / like an end marker
+        for omode in ("none", "mix"):
+            with sl.odd_results(omode):
+                try:
+                    els3 = ct_elements(kind, nb, ms, form)
+                    if zipped:
+                        obj = lena.flow.Zip(els3, name="zz", fields=fields) if fields else lena.flow.Zip(els3)
+                    else:
+                        obj = lena.core.Split(els3, copy_buf=copy_buf)
+                    oouts = ct_ops(obj, rec["hist"])
+                except Exception as exc:   # noqa
+                    oouts = "raised " + exc_name(exc)
+                if zipped:
+                    want = [[tuple(sl.expected_result(x) for x in tup) for tup in o["z"]] for o in rec["outs"]]
+                else:
+                    want = [[sl.expected_result(x) for x in o["s"]] for o in rec["outs"]]
+            if isinstance(oouts, str) or not sl.same_result(oouts, want):
+                ctx.violation(key + ":odd-results", {"scenario": rec, "results": omode, "expected_values": repr(want),
+                                                     "observed": repr(oouts)})
+                good = False
+        # a Zip is itself a fill/compute (fill/request) element: as the branch of a Split it yields its tuples
+        if zipped and not fields and rec["hist"] and all(op[0] == "f" for op in rec["hist"][:-1]) \
+                and rec["hist"][-1][0] in ("c", "r") and len(rec["hist"]) > 1:
+            n = len(rec["hist"]) - 1
+            for omode in (None, "none"):
+                with sl.odd_results(omode):
+                    try:
+                        sp = lena.core.Split([lena.flow.Zip(ct_elements(kind, nb, ms, form)), sl.TSeq(9)], bufsize=None)
+                        r = list(itertools.islice(sp.run(iter(range(n))), sl.CAP))
+                    except Exception as exc:   # noqa
+                        r = "raised " + exc_name(exc)
+                    want = [tuple(sl.expected_result(x) for x in tup) for tup in rec["outs"][-1]["z"]]
+                    want += [sl.tag(9, "m", (v,)) for v in range(n)] + [sl.tag(9, "end", (n,))]
+                if isinstance(r, str) or not sl.same_result(r, want):
+                    ctx.violation("Split.run:Zip-as-branch:%s" % kind, {"scenario": rec, "results": omode,
+                                                                       "expected_values": repr(want), "observed": repr(r)})
+                    good = False
         # same meaning as run: fill;...;compute == Split.run on the same flow (one result per branch)
         if kind == "fc" and not zipped and rec["hist"] and rec["hist"][-1][0] == "c":
             n = sum(1 for op in rec["hist"] if op[0] == "f")
